@@ -194,6 +194,8 @@ class World:
         self.evals = 0           # monitor evaluations (vacuity witness)
         self.injected = []       # exception objects raised by harness-owned user code on purpose
         self.selfret = [None]    # a pool: the next worker to start cancels its own task in that pool and returns at once
+        self.instant = []        # per worker start, in start order: 0 = block on the gate (default), 1 = return at once,
+                                 # 2 = raise at once - a coroutine that finishes before its first suspension
         self.unstarted_cancelled_spawners = []   # T3: spawner tasks that were cancelled before their first step
         plog("E %s" % harness)
 
@@ -357,6 +359,20 @@ class World:
             w.at_site("wstart")
             rec["left"] = swallow
             result = None
+            mode = w.instant.pop(0) if w.instant else 0
+            if mode:
+                # finishes inside its very first step: no suspension between creation and the end of the coroutine
+                rec["instant"] = mode
+                w.live -= 1
+                rec["finished_at"] = len(w.cb)
+                if mode == 2:
+                    rec["state"] = "failed"
+                    e = RuntimeError("failed before the first await")
+                    rec["exc"] = e
+                    w.injected.append(e)
+                    raise e
+                rec["state"] = "ok"
+                return ("instant", rec["wid"])
             if w.selfret and w.selfret[0] is not None:
                 # this worker cancels its own task and returns at once, without reaching another await
                 pool_, w.selfret[0] = w.selfret[0], None
@@ -557,7 +573,10 @@ class World:
             for n_, it in enumerate(items):
                 if n_ == iterfail:
                     rec["iter_raised"] = True
-                    raise RuntimeError("argument source broke")
+                    e = RuntimeError("argument source broke")
+                    rec["iter_exc"] = e
+                    w.injected.append(e)
+                    raise e
                 rec["pulled"] += 1
                 if rec.get("cancel_seen"):
                     rec["advanced_after_cancel"] = True
